@@ -163,6 +163,27 @@ Merge(self, other) ==
       safe |-> v.safe]
 
 ----------------------------------------------------------------------------
+\* How the keyspace actor applies a batch (on_multi_set / on_multi_del): filter with
+\* will_apply on the state before the batch, sort by stamp, apply through `src`.
+\* items: set of <<k, ts>>.  (Storage effects are modelled in Keyspace.tla.)
+RECURSIVE ApplySorted(_, _, _, _)
+ApplySorted(st, src, items, isDel) ==
+  IF items = {} THEN st
+  ELSE LET e == CHOOSE x \in items : \A y \in items : Le(x[2], y[2])
+           r == IF isDel THEN DeleteWS(st, src, e[1], e[2]) ELSE InsertWS(st, src, e[1], e[2])
+       IN ApplySorted(r[2], src, items \ {e}, isDel)
+ApplyBatch(st, src, items, isDel) ==
+  ApplySorted(st, src, { e \in items : WillApply(st, e[1], e[2]) }, isDel)
+
+\* One repair exchange at the level of the set: the difference against `peer` applied through
+\* source `src`, removals first or modifications first (poller.rs runs the two halves concurrently).
+ApplyDiff(st, peer, src, removalsFirst) ==
+  LET d == Diff(st, peer)
+  IN IF removalsFirst
+     THEN LET s1 == ApplyBatch(st, src, d[2], TRUE) IN ApplyBatch(s1, src, d[1], FALSE)
+     ELSE LET s1 == ApplyBatch(st, src, d[1], FALSE) IN ApplyBatch(s1, src, d[2], TRUE)
+
+----------------------------------------------------------------------------
 \* Observables (what `get` and `default().diff(&set)` expose)
 
 Live(st)  == [k \in Keys |-> st.ent[k]]                  \* get(k)
